@@ -774,6 +774,16 @@ func c05Directed() []C05Case {
 			{&GSchema{HasTypes: true, Types: []string{"number"}, Format: "float", Enum: []any{0.1, 0.7, 2.5}}, SVal{Kind: "prim", T: "0.7"}},
 			{&GSchema{HasTypes: true, Types: []string{"number"}, Format: "double", Min: fp(0.3), Max: fp(0.3)}, SVal{Kind: "prim", T: "0.3"}},
 			{arr(&GSchema{HasTypes: true, Types: []string{"number"}, Format: "float", Enum: []any{0.1, 0.7, 2.5}}), SVal{Kind: "arr", Ts: []string{"0.1", "0.7"}}},
+			// a list of types: the text is read as the first type of the list that can read it
+			{&GSchema{HasTypes: true, Types: []string{"integer", "string"}, Min: fp(10)}, SVal{Kind: "prim", T: "5"}},
+			{&GSchema{HasTypes: true, Types: []string{"integer", "string"}, Min: fp(10)}, SVal{Kind: "prim", T: "50"}},
+			{&GSchema{HasTypes: true, Types: []string{"integer", "string"}}, SVal{Kind: "prim", T: "unlimited"}},
+			{&GSchema{HasTypes: true, Types: []string{"integer", "string"}, Enum: []any{1.0, 2.0, "auto"}}, SVal{Kind: "prim", T: "1"}},
+			{&GSchema{HasTypes: true, Types: []string{"integer", "string"}, Enum: []any{1.0, 2.0, "auto"}}, SVal{Kind: "prim", T: "auto"}},
+			{&GSchema{HasTypes: true, Types: []string{"string", "integer"}, MaxLen: up(1)}, SVal{Kind: "prim", T: "55"}},
+			{&GSchema{HasTypes: true, Types: []string{"boolean", "integer"}}, SVal{Kind: "prim", T: "7"}},
+			{&GSchema{HasTypes: true, Types: []string{"number", "string"}, Max: fp(1)}, SVal{Kind: "prim", T: "1.5"}},
+			{arr(&GSchema{HasTypes: true, Types: []string{"integer", "string"}}), SVal{Kind: "arr", Ts: []string{"3", "x", "5"}}},
 			{&GSchema{HasTypes: true, Types: []string{"object"}, Props: map[string]*GSchema{"ratio": {HasTypes: true, Types: []string{"number"}, Format: "float", Max: fp(0.1)}}}, SVal{Kind: "obj", KVs: [][2]string{{"ratio", "0.1"}}}},
 		} {
 			c := base
